@@ -2,21 +2,12 @@ package zzverif
 
 import "verifsim/simrt"
 
-type ConcCase struct{}
-type ConcOpts struct{}
-type ConcOutcome struct {
-	Viol    []Violation
-	LogHash uint64
-}
 type CompCase struct{}
 type CompOutcome struct {
 	Viol    []Violation
 	LogHash uint64
 }
 
-func RunConc(seed uint64, c *ConcCase, sched []simrt.Deviation, replay bool, spec *PropSpec) *ConcOutcome {
-	return &ConcOutcome{}
-}
 func RunComp(seed uint64, c *CompCase, sched []simrt.Deviation, replay bool) *CompOutcome {
 	return &CompOutcome{}
 }
